@@ -56,14 +56,18 @@ def oracle(line: str, obs: Obs):
             nested = any(w.startswith("req") for w in t[4:])
             if nested:
                 # nested submissions while blocked: senders return innermost first
-                gots = [kv(l) for l in lines if l.startswith("APP ") and " GOT " in l]
-                for i, g in enumerate(gots):
+                # (a sender either gets an answer or ends with an error such as the timeout)
+                rets = [l for l in lines if l.startswith("APP ") and (" GOT " in l or " RAISE " in l)]
+                for i, l in enumerate(rets):
+                    if " GOT " not in l:
+                        continue
+                    g = kv(l)
                     if i < len(outs):
                         want = outs[len(outs) - 1 - i][1]
                         if (g["hbh"], g["e2e"]) != (want["hbh"], want["e2e"]):
                             fails.append({"what": "blocked sender received an answer that does not bear its identifiers",
                                           "event": ev[:300], "real": str(g), "expected": f"hbh={want['hbh']} e2e={want['e2e']}",
-                                          "sig": "answer_waiting_hbh_only" if g["hbh"] == want["hbh"] else None})
+                                          "sig": "answer_waiting_hbh_only" if g["hbh"] == want["hbh"] and " | sethbh " in line else None})
                 continue
             if not eligible:
                 if outs or not any("NotRoutable" in r for r in raised):
@@ -210,6 +214,21 @@ def scenarios(rng: random.Random, tier: str):
     inner = ("req_0_" + nodegen.ccr(0, 0, "node.local", "realm2.local") + "_2_" +
              "rx~0~" + nodegen.cca(2001, 268435464, "peer2.x"))
     out.append(pre + f" | req 0 {nodegen.ccr(0, 0, 'node.local')} 3 {inner}")
+    # the same two outstanding requests with the generators as the node starts them (no sethbh): the identifiers the node
+    # draws are learnt from a dry run without the answer, then the answer to the outer request arrives while the inner sender
+    # is blocked on the other connection - each sender gets its own answer or times out
+    pre = cfg2 + " | start | acc | rx 0 " + nodegen.cer("peer2.x", "4", n(), n()) + " | acc | rx 1 " + nodegen.cer("peer3.x", "4", n(), n())
+    for warm in (0, 1, 2):
+        w = "".join(f" | req 0 {nodegen.ccr(0, 0, 'node.local', r)} 1" for _ in range(warm) for r in ("realm.local", "realm2.local"))
+        dry = pre + w + f" | req 0 {nodegen.ccr(0, 0, 'node.local')} 3 req_0_" + nodegen.ccr(0, 0, "node.local", "realm2.local") + "_2"
+        hb, e = 2001 + warm, 268435464 + 2 * warm
+        try:
+            reqs = [kv(l) for l in nodecheck.run_real(dry) if l.startswith("OUT c0 ") and " cmd=272 " in l and " R=1 " in l]
+            hb, e = int(reqs[-1]["hbh"]), int(reqs[-1]["e2e"])
+        except Exception:
+            pass
+        inner = ("req_0_" + nodegen.ccr(0, 0, "node.local", "realm2.local") + "_2_" + "rx~0~" + nodegen.cca(hb, e, "peer2.x"))
+        out.append(pre + w + f" | req 0 {nodegen.ccr(0, 0, 'node.local')} 3 {inner}")
     return out
 
 
